@@ -5736,7 +5736,15 @@ impl<Front: SocketHandler> ConnectionH2<Front> {
                 },
                 parser::SETTINGS_ENABLE_PUSH       => { self.peer_settings.settings_enable_push = v == 1;             is_error |= v > 1 },
                 parser::SETTINGS_MAX_CONCURRENT_STREAMS => { self.peer_settings.settings_max_concurrent_streams = v },
-                parser::SETTINGS_INITIAL_WINDOW_SIZE    => { is_error |= self.update_initial_window_size(v, context) },
+                parser::SETTINGS_INITIAL_WINDOW_SIZE    => {
+                    // RFC 9113 §6.5.2 / §6.9.2: a value above 2^31-1, or a change that pushes a
+                    // stream window past 2^31-1, is a connection error of type
+                    // FLOW_CONTROL_ERROR (not PROTOCOL_ERROR).
+                    if self.update_initial_window_size(v, context) {
+                        error!("{} INVALID SETTINGS_INITIAL_WINDOW_SIZE {}", log_context!(self), v);
+                        return self.goaway(H2Error::FlowControlError);
+                    }
+                },
                 parser::SETTINGS_MAX_FRAME_SIZE         => { self.peer_settings.settings_max_frame_size = v;           is_error |= !(MIN_MAX_FRAME_SIZE..MAX_MAX_FRAME_SIZE).contains(&v) },
                 parser::SETTINGS_MAX_HEADER_LIST_SIZE   => { self.peer_settings.settings_max_header_list_size = v },
                 parser::SETTINGS_ENABLE_CONNECT_PROTOCOL => { self.peer_settings.settings_enable_connect_protocol = v == 1; is_error |= v > 1 },
